@@ -30,7 +30,7 @@ func c06Key(r *rng.R) string {
 func runC06(c *fw.Ctx) {
 	steps := c.N(40, 60)
 	c.Cases("programs", c.N(1500, 600000), false, func(i int, r *rng.R) {
-		p := &prog{c: c, r: r, h: &model.Heap{}, lazy: i%2 == 1}
+		p := &prog{c: c, r: r, h: &model.Heap{}, lazy: i%2 == 1, ctx: i%3 == 0}
 		guard(c, p.input, func() {
 			c06Program(p, steps)
 			p.checkHeap()
